@@ -139,6 +139,10 @@ func c15Run(w *core.W, q *dns.Msg, envs [][]*model.Rec, tsig bool, f c15Fault, r
 	signed := make([][]byte, len(envs))
 	for i, e := range envs {
 		m := &model.Msg{ID: id, Bits: 0x8400, Q: []model.Question{{Name: mustName(q.Question[0].Name), Type: q.Question[0].Qtype, Class: 1}}, An: e}
+		if id%4 == 1 {
+			// a primary that speaks EDNS: every envelope carries an OPT record after its answers
+			m.Ar = []*model.Rec{{Owner: model.Name{}, Type: 41, Class: 1232, TTL: 0, L: model.Layouts[41], Vals: []any{[]model.Opt{}}}}
+		}
 		if f.kind == "rcode" && i == f.at {
 			m.Bits |= uint16(rcodeAt)
 		}
